@@ -114,12 +114,14 @@ def _pre_supply(B, how, ka, kb, a, b):
         return False
     if how in _SINGLE:
         return kb == 0 and len(b) == 0 and len(a) <= B["L1"]
+    if ka == 0 and kb == 0:
+        return len(a) <= B["L"] and len(b) <= B["LB"]      # both plain: the merged string is escaped as a whole (expensive)
     return len(a) <= B["L"] and len(b) <= B["L"]
 
 
 @harness("C03",
          pre=_pre_supply,
-         bounds={"quick": {"L": 1, "L1": 2}, "thorough": {"L": 2, "L1": 3}},
+         bounds={"quick": {"L": 1, "L1": 2, "LB": 1}, "thorough": {"L": 2, "L1": 3, "LB": 1}},
          shard=lambda B: [{"how": h, "ka": ka, "kb": kb} for h in range(N_SUPPLY) for ka in range(2) for kb in range(2)
                           if not (h in _SINGLE and kb == 1)],
          sym=["a, b: str over all code points, len <= L (len(a) <= L1 on the single-operand paths)"],
